@@ -4,6 +4,10 @@ import json, os
 ROOT = os.path.dirname(os.path.dirname(os.path.abspath(__file__)))
 props = [json.loads(l) for l in open(os.path.join(ROOT, "properties.jsonl"))]
 CLAIMED = {
+ "C01": dict(
+   text="Coq theorems, for every field with an involutive conjugation (so real and complex data at once) and every shape/spectrum/k: from the SVD oracle's specification the model's components are orthonormal, scores are mutually orthogonal with norms the leading singular values, (X^H X/(n-1)) v_i = (s_i^2/(n-1)) v_i, X^H X = V diag(s^2) V^H over all modes, the k-mode reconstruction error equals the discarded squared singular values, and with centred columns the ddof=1 total variance is the sum of all s_i^2/(n-1); at the real instance: explained variances non-negative and descending, ratios in [0,1] summing to one. The normalisation constants, conjugations, sign rule and stored names in the model are proved equal to the definitions regenerated from eof.py/decomposer.py/xarray_utils.py on every run. Correspondence: the same Gallina model run at binary64 (real and complex) against EOF/ComplexEOF/HilbertEOF/ExtendedEOF fits, SVD oracle residuals re-checked inside Coq. Eckart-Young over arbitrary rank-k matrices is stated, not proved (partial); randomised solvers are tested only.",
+   note="Trusted: Coq kernel/vm_compute; translator T3/T3b/T5eof; numpy SVD as oracle with checked residuals; Hilbert transform opaque (the decomposed matrix is data['input_data']); Coq.Reals axioms in the three order theorems; rounding gap float vs field (rtol 1e-8).",
+   technique="Coq proof over abstract field from SVD oracle spec + source-regenerated constants + float-instance correspondence", ref="4/C01"),
  "C15": dict(
    text="Coq theorems over the definitions regenerated from decomposer.py/_svd.py/xarray_utils.py on every run: the variance-threshold formula keeps the least sufficient number of modes (all list lengths, all non-negative spectra), 'auto' only selects what 'full' or 'randomized' select, unknown solvers and over-rank n_modes are refused, the sign rule makes a largest-magnitude loading positive (forced hypothesis: not a constant negative column, refuted otherwise), every site forwarding solver_kwargs hands them on intact. Correspondence: generated decision functions vs Decomposer.fit/_SVD.fit_transform on an enumerated decision grid, bit-exact threshold counts on prescribed spectra, sign rule on columns incl. ties. Exact-vs-randomised agreement and seed reproducibility are tests.",
    note="Trusted: Coq kernel/vm_compute; translator T3/T3b/T8 (Python ast, fail-closed); Coq.Reals axioms in order theorems; PrimFloat primitives in generated float expressions; numpy/sklearn/scipy/dask solvers behind the policy are not modelled (tests only).",
